@@ -6,9 +6,12 @@ RULE = ("each obligation is one Kani/CBMC query with Kani's panic / overflow / s
         "the real symbol table must leave no residue; non-trivial = boundary covers satisfied")
 
 SPECS = [p_kani.Spec("steel-core", "steel-core/src/primitives/numbers.rs", "num.rs", "verif_num"),
-         p_kani.Spec("steel-core", "steel-core/src/compiler/map.rs", "sym.rs", "verif_sym")]
+         p_kani.Spec("steel-core", "steel-core/src/compiler/map.rs", "sym.rs", "verif_sym"),
+         p_kani.Spec("steel-core", "steel-core/src/primitives.rs", "idx.rs", "verif_idx")]
 FUNCS = ["primitives::numbers::{arithmetic_shift, expt (integer base, exponent -30), abs, negate, add_two, truncate_quotient, floor_remainder, euclidean_remainder, even, odd}",
-         "compiler::map::SymbolMap::{add, roll_back}"]
+         "compiler::map::SymbolMap::{add, roll_back}",
+         "registered wrappers (arity test + argument conversions + body) of bytes-ref, bytes-set!, bytes-copy, bytes->string/utf8, make-bytes, "
+         "string-ref, substring, integer->char, vector-ref (immutable vectors)"]
 ASSUME = [
     "Kani checks overflow as the dev/test profile does (overflow-checks on); a wrapped value in release is a C10 matter",
     "arbitrary source TEXT is outside the claim: a 2-byte symbolic input through the real lexer does not leave symbolic execution (DESIGN C12)",
@@ -16,6 +19,18 @@ ASSUME = [
     "bounds (E3b): only branch conditions on the argument count are interpreted, every other branch is free; accesses with a non-constant index and sub-slicing (args[1..]) are not interpreted; scope = functions carrying a steel_derive function/native/native_mut/context attribute with a name",
 ]
 KF_RESIDUE = "sym:rollback-keeps-definition-in-recycled-slot"
+
+# index- and size-taking procedures through their registered wrappers (harness/idx.rs): integer arguments at full width
+IDX_Q = [
+    {"h": "idx_bytes_set", "spec": 2, "sym": "(bytes-set! (bytes a b) i x): a, b: u8; i, x: isize (full width)"},
+    {"h": "idx_bytes_ref", "spec": 2, "sym": "(bytes-ref (bytes a b) i): i: isize"},
+    {"h": "idx_bytes_to_string", "spec": 2, "sym": "(bytes->string/utf8 (bytes a b) s e): a, b < 128; s, e: isize"},
+    {"h": "idx_string_ref", "spec": 2, "sym": "(string-ref \"a\u03b2c\" i): i: isize"},
+    {"h": "idx_integer_to_char", "spec": 2, "sym": "(integer->char n): n: isize"},
+]
+IDX_T = [
+    {"h": "idx_bytes_copy", "spec": 2, "sym": "(bytes-copy (bytes a b) s e): s, e: isize"},
+]
 
 
 def plan(tier):
@@ -26,14 +41,14 @@ def plan(tier):
         {"h": "sym_rollback_with_recycled_slot", "spec": 1, "sym": "f in {1,2,3}",
          "classify": {KF_RESIDUE: r"reused a released slot"}, "known": {KF_RESIDUE: "sym_rollback_with_recycled_slot__kf"}},
         {"h": "sym_rollback_1_1", "spec": 1, "sym": "f1 in {1,2,3}"},
-    ]
+    ] + IDX_Q
     t = [
         {"h": "num_truncate_quotient_edge", "spec": 0, "sym": "x within 3 of isize::MIN/MAX, |y| <= 3"},
         {"h": "num_floor_remainder_edge", "spec": 0, "sym": "x within 3 of isize::MIN/MAX, |y| <= 3"},
         {"h": "num_euclidean_remainder_ii", "spec": 0, "sym": "|x| <= 2^12, |y| <= 2^6"},
         {"h": "sym_rollback_redef_1", "spec": 1, "sym": "f1 in {1,2,3}"},
     ]
-    return q + (t if tier == "thorough" else [])
+    return q + ((t + IDX_T) if tier == "thorough" else [])
 
 
 def bounds_obligations(run):
@@ -55,6 +70,7 @@ def bounds_obligations(run):
                             "-Zunpretty=mir", "-C", "debug-assertions=off"], cwd=wsdir, stdout=f, stderr=e, env=env)
         names = set(reg)
         funcs = mir.parse(open(out).read(), lambda n: n.split("::")[-1] in names)
+        run._mir = dict(wsdir=wsdir, root=root, out=out, reg=reg, env=env)
     except Exception as ex:
         run.ob("bounds:mir-dump", "inconclusive", reason=str(ex)[-500:], engine="mir-smt")
         return
@@ -127,15 +143,197 @@ def bounds_obligations(run):
         run.ob("bounds:argument-vector", "known", nonvacuous=True, note="only listed findings: %s" % ", ".join(confirmed), **common)
 
 
+# sample expressions per value kind for the replay of E3c counterexamples (kinds a script can write down)
+KIND_EXPR = {"Closure": "(lambda (x) x)", "BoolV": "#t", "NumV": "1.5", "IntV": None, "Rational": "1/2", "CharV": "#\\a",
+             "VectorV": "(immutable-vector 1 2)", "Void": "(void)", "StringV": "\"s\"", "SymbolV": "'sym", "HashMapV": "(hash)",
+             "HashSetV": "(hashset)", "ListV": "(list 1 2)", "Pair": "(cons 1 2)", "MutableVector": "(vector 1 2)",
+             "BigNum": "(expt 10 30)", "BigRational": "(/ 1 (expt 10 30))", "Complex": "(make-rectangular 1 2)", "ByteVector": "(bytes 1 2)"}
+NUMBER_KINDS = ("NumV", "IntV", "Rational", "BigNum", "BigRational", "Complex")
+KERNEL_OPS = {"multiply_two": "*", "add_two": "+", "add_two_fallible": "+", "negate": "-"}
+
+
+def kinds_scope(reg, funcs, numbers_src):
+    """-> list of (key, func, script name, kinds restriction or None)"""
+    import re
+    out = []
+    inner = {k[6:]: v for k, v in reg.items() if v[0] == "function" and k.startswith("steel_")}
+    ref = re.compile(r"&(?:mut )?(?:rvals::)?SteelVal")
+    kernels = set(re.findall(r"fn (\w+)\(", numbers_src)) & set(KERNEL_OPS)
+    for key, f in funcs.items():
+        last = f.name.split("::")[-1]
+        if "{closure" in f.name:
+            continue
+        if last in reg and reg[last][0] != "function":
+            out.append((key, f, reg[last][1], None))
+        elif last in reg:
+            out.append((key, f, reg[last][1], None))          # generated wrapper steel_<fn>
+        elif last in inner and f.argtypes and all(ref.fullmatch(t.strip()) for t in f.argtypes.values()):
+            out.append((key, f, inner[last][1], None))        # its body, when every parameter is a &SteelVal
+        elif last in kernels and f.argtypes and all(ref.fullmatch(t.strip()) for t in f.argtypes.values()):
+            out.append((key, f, KERNEL_OPS[last], NUMBER_KINDS))
+    return out
+
+
+def kinds_obligations(run, only_kernels=False):
+    """E3c: no choice of argument KINDS (and integer payloads) reaches an explicit panic of a built-in
+    procedure or of a numeric kernel (MIR -> SMT, lib/p_kinds.py)."""
+    import os, json, shutil, subprocess, re, time
+    import ws, mir, p_bounds, p_kinds
+    oid = "kinds:numeric-kernels" if only_kernels else "kinds:built-in-procedures"
+    t0 = time.time()
+    M = getattr(run, "_mir", None)
+    if M is None:
+        run.ob(oid, "inconclusive", reason="no MIR dump", engine="mir-smt")
+        return
+    try:
+        src = os.path.join(M["wsdir"], "crates", "steel-core", "src")
+        vs = p_kinds.variants(src)
+        reg = M["reg"]
+        wanted = set(reg) | {k[6:] for k, v in reg.items() if v[0] == "function"} | set(KERNEL_OPS)
+        funcs = mir.parse(open(M["out"]).read(), lambda n: n.split("::")[-1] in wanted)
+        scope = kinds_scope(reg, funcs, open(os.path.join(src, "primitives", "numbers.rs")).read())
+        if only_kernels:
+            scope = [x for x in scope if x[3] is not None]
+    except Exception as ex:
+        run.ob(oid, "inconclusive", reason="scope extraction failed: %s" % str(ex)[-300:], engine="mir-smt")
+        return
+    writable = [vs.index(k) for k in KIND_EXPR if k in vs]
+    cnt = {"unsat": 0, "none": 0, "skip": 0}
+    bad, errs, solver_s, dropped, sites = [], [], 0.0, 0, 0
+    for key, f, script, restr in scope:
+        try:
+            kinds = [vs.index(k) for k in restr] if restr else None
+            r = p_kinds.check_fn(key, f, len(vs), p_bounds.len_cond, kinds=kinds)
+            if r["res"] == "sat":
+                # a witness the replay can write down: kinds with a literal expression
+                r2 = p_kinds.check_fn(key, f, len(vs), p_bounds.len_cond, kinds=[k for k in (kinds or writable) if k in writable])
+                if r2["res"] == "sat":
+                    r = r2
+                else:
+                    r["unwritable"] = True
+        except Exception as ex:
+            errs.append("%s: %s" % (f.name[-50:], str(ex)[:120]))
+            continue
+        solver_s += r.get("dt", 0) or 0
+        dropped += r.get("dropped", 0) or 0
+        sites += r.get("sites", 0) or 0
+        if r["res"] == "sat":
+            bad.append((f, script, r))
+        elif r["res"] in cnt:
+            cnt[r["res"]] += 1
+        else:
+            errs.append("%s: solver %s" % (f.name[-50:], r["res"]))
+    n = len(scope)
+    run.functions.append("%d %s: explicit panic sites (panic!/unreachable!/todo!/unimplemented!) against symbolic argument kinds (MIR)" % (n, "numeric kernels (multiply_two, add_two, add_two_fallible, negate) on number kinds" if only_kernels else "built-in procedures, bodies of #[function] procedures and numeric kernels"))
+    run.samples.append({"engine": "mir-smt", "query": "exists argument count, kind per argument (one of the %d variants of SteelVal) and integer payload reaching an explicit panic along a fully interpreted path" % len(vs),
+                        "functions": n, "with panic sites": sites, "unsat": cnt["unsat"], "no explicit panic site": cnt["none"],
+                        "branches not interpreted on the way to a panic site (outside the claim)": dropped})
+    common = dict(engine="mir-smt/z3", wall_s=time.time() - t0, solver_s=round(solver_s, 2), solver_checks=n)
+    if n < (2 if only_kernels else 300):
+        run.ob(oid, "inconclusive", reason="only %d functions in scope" % n, **common)
+        return
+    if errs:
+        run.ob(oid, "inconclusive", reason="; ".join(errs[:3]), **common)
+        return
+    if not bad:
+        run.ob(oid, "pass", nonvacuous=True, note="%d functions, %d explicit panic sites: none reachable by a choice of argument count, kinds and integer payloads along interpreted paths" % (n, sites), **common)
+        return
+    try:
+        shutil.copy(os.path.join(ws.VERIF, "harness", "arity_replay.rs"), os.path.join(M["wsdir"], "crates", "steel-core", "tests", "verif_arity_replay.rs"))
+    except Exception as ex:
+        run.ob(oid, "inconclusive", reason="replay set-up failed: %s" % str(ex)[-300:], **common)
+        return
+    confirmed, unconfirmed = [], []
+    for f, script, r in bad[:8]:
+        calls = kinds_calls(f, script, r, vs)
+        obs = None
+        for call in calls:
+            try:
+                p = subprocess.run(["cargo", "test", "--offline", "-p", "steel-core", "--no-default-features", "--features", ws.FEATURES,
+                                    "--test", "verif_arity_replay", "--target-dir", os.path.join(M["root"], "tn"), "--", "kinds_replay", "--exact", "--nocapture"],
+                                   cwd=M["wsdir"], env=dict(M["env"], VERIF_KINDS_CALL=call), capture_output=True, text=True, timeout=1800)
+                m = re.search(r"OBSERVED: (.*)", p.stdout + p.stderr)
+            except Exception:
+                m = None
+            if m:
+                obs = (call, m.group(1))
+                break
+        if not obs:
+            unconfirmed.append("%s: %s" % (script, calls[:2]))
+            continue
+        d = os.path.join(ws.VERIF, "replays", run.pid)
+        os.makedirs(d, exist_ok=True)
+        path = os.path.join(d, "kinds_%s.json" % re.sub(r"[^A-Za-z0-9_-]", "_", script))
+        json.dump({"property": run.pid, "kind": "kinds", "function": f.name, "script_name": script, "call": obs[0], "model": r["model"], "observed": obs[1],
+                   "how": "./check %s --replay <this file>" % run.pid}, open(path, "w"), indent=1)
+        key = "kinds:%s" % script
+        if run.is_known(key):
+            run.known_hit(key, run.known[(run.pid, key)] + " -- " + obs[1][:200])
+        else:
+            run.violation(key, "%s: %s" % (obs[0], obs[1][:300]), path)
+        confirmed.append(obs[0])
+    if unconfirmed:
+        run.ob(oid, "inconclusive", reason="solver: a panic site is reachable in %s; not reproduced through a script call" % "; ".join(unconfirmed[:3]), **common)
+    elif any(v["key"].startswith("kinds:") for v in run.violations):
+        run.ob(oid, "fail", note="host panic reproduced for: %s" % "; ".join(confirmed), **common)
+    else:
+        run.ob(oid, "known", nonvacuous=True, note="only listed findings: %s" % "; ".join(confirmed), **common)
+
+
+def kinds_calls(f, script, r, vs):
+    """script texts for a solver model: one expression per argument position"""
+    import re
+    model = r["model"]
+    P = r.get("slice")
+    params = r.get("params") or []
+
+    def expr(name):
+        k = model.get("k_" + name)
+        if k is None:
+            return "1"
+        kind = vs[k] if k < len(vs) else "IntV"
+        if kind == "IntV":
+            v = model.get("v_" + name, 0)
+            if v >= 1 << 63:
+                v -= 1 << 64
+            return str(v)
+        return KIND_EXPR.get(kind) or "1"
+
+    if P:
+        n = min(int(model.get("len", 0)), 8)
+        args = [expr("s%d" % i) for i in range(n)]
+        return ["(%s %s)" % (script, " ".join(args))]
+    args = [expr("p%s" % a[1:]) for a in params]
+    calls = ["(%s %s)" % (script, " ".join(args))]
+    if len(args) == 2:
+        calls.append("(%s %s %s)" % (script, args[1], args[0]))
+    return calls
+
+
 def check(pid, tier, seed):
     run = p_kani.check(pid, tier, seed, SPECS, plan(tier), FUNCS, {"operands": "full 64-bit", "names": 3, "argument count": "64-bit"}, ASSUME, RULE, slots=3)
     bounds_obligations(run)
+    kinds_obligations(run)
     return run
 
 
 def replay(pid, path):
     import json
     payload = json.load(open(path))
+    if payload.get("kind") == "kinds":
+        import os, shutil, subprocess, re, ws
+        wsdir = ws.prepare("c07replay", [])
+        root = os.path.dirname(wsdir)
+        shutil.copy(os.path.join(ws.VERIF, "harness", "arity_replay.rs"), os.path.join(wsdir, "crates", "steel-core", "tests", "verif_arity_replay.rs"))
+        p = subprocess.run(["cargo", "test", "--offline", "-p", "steel-core", "--no-default-features", "--features", ws.FEATURES,
+                            "--test", "verif_arity_replay", "--target-dir", os.path.join(root, "tn"), "--", "kinds_replay", "--exact", "--nocapture"],
+                           cwd=wsdir, env=dict(os.environ, VERIF_KINDS_CALL=payload["call"]), capture_output=True, text=True)
+        m = re.search(r"OBSERVED: (.*)", p.stdout + p.stderr)
+        print("observed:", m.group(1) if m else "not reproduced")
+        if m:
+            print("VIOLATION property=%s replay=%s" % (pid, path))
+            return 1
+        return 0
     if payload.get("kind") == "bounds":
         import os, shutil, subprocess, re, ws
         wsdir = ws.prepare("c07replay", [])
